@@ -33,7 +33,7 @@ public:
 #ifndef MAXLEN
 #    define MAXLEN 3
 #endif
-#define OUTCAP (9 + 7 + 6 * MAXLEN + 1 + 2 + 1)
+#define OUTCAP (9 + 12 + 6 * MAXLEN + 1 + 2 + 1)
 
 // XML character data (XML 1.0 Char, byte view): tab, LF, CR, and everything from 0x20 up
 static bool xmlChar(unsigned char c) { return c == 9 || c == 10 || c == 13 || c >= 0x20; }
@@ -79,7 +79,7 @@ static bool startsWith(const char *t, int n, int i, const char *lit, int ln)
 }
 
 // out must be: OPEN [ name="value"] CLOSE with value decoding to the name
-static bool faithful(const std::string &out, const char *open, int openLen, const char *close, int closeLen, const char *name, int n)
+static bool faithfulAttr(const std::string &out, const char *open, int openLen, const char *attr, int attrLen, const char *close, int closeLen, const char *name, int n)
 {
     char t[OUTCAP];
     int len = (int)out.size();
@@ -88,14 +88,19 @@ static bool faithful(const std::string &out, const char *open, int openLen, cons
     if (!startsWith(t, len, 0, open, openLen)) return false;
     int i = openLen;
     if (n > 0) {
-        if (!startsWith(t, len, i, " name=\"", 7)) return false;
+        if (!startsWith(t, len, i, attr, attrLen)) return false;
         char val[MAXLEN + 2];
         int vn = 0;
-        i = readAttValue(t, len, i + 7, val, &vn);
+        i = readAttValue(t, len, i + attrLen, val, &vn);
         if (i < 0 || vn != n) return false;
         for (int k = 0; k < MAXLEN; ++k) if (k < n && val[k] != name[k]) return false;
     }
     return startsWith(t, len, i, close, closeLen) && i + closeLen == len;
+}
+
+static bool faithful(const std::string &out, const char *open, int openLen, const char *close, int closeLen, const char *name, int n)
+{
+    return faithfulAttr(out, open, openLen, " name=\"", 7, close, closeLen, name, n);
 }
 
 static int mkName(std::string &s, char *buf)
@@ -126,6 +131,43 @@ extern "C" void h_print_variable()
     NO_UNCAUGHT();
     vouts("out", out);
     vcheck(faithful(out, "<variable", 9, "/>", 2, buf, n), "the printed variable element is well-formed and its name attribute decodes to the name");
+#ifdef WITNESS
+    vcheck(0, "witness");
+#endif
+}
+
+// the same for the id and interface attributes (the variable has no name, so the attribute under test is the only one)
+extern "C" void h_print_variable_id()
+{
+    char buf[MAXLEN + 1];
+    std::string s;
+    int n = mkName(s, buf);
+    auto v = Variable::create();
+    v->setId(s);
+    IdList ids;
+    Printer::PrinterImpl impl;
+    std::string out = impl.printVariable(v, ids, false);
+    NO_UNCAUGHT();
+    vouts("out", out);
+    vcheck(faithfulAttr(out, "<variable", 9, " id=\"", 5, "/>", 2, buf, n), "the printed variable element is well-formed and its id attribute decodes to the id");
+#ifdef WITNESS
+    vcheck(0, "witness");
+#endif
+}
+
+extern "C" void h_print_variable_interface()
+{
+    char buf[MAXLEN + 1];
+    std::string s;
+    int n = mkName(s, buf);
+    auto v = Variable::create();
+    v->setInterfaceType(s);
+    IdList ids;
+    Printer::PrinterImpl impl;
+    std::string out = impl.printVariable(v, ids, false);
+    NO_UNCAUGHT();
+    vouts("out", out);
+    vcheck(faithfulAttr(out, "<variable", 9, " interface=\"", 12, "/>", 2, buf, n), "the printed variable element is well-formed and its interface attribute decodes to the stored text");
 #ifdef WITNESS
     vcheck(0, "witness");
 #endif
